@@ -146,10 +146,10 @@ Qed.
 Lemma wf_empty : wf_repo []. Proof. split; constructor. Qed.
 
 (* every task handed out by an operation is well-formed *)
-Lemma find_loop_in q l off lim t : In t (find_loop q l off lim) -> In t l.
+Lemma find_loop_in q l off lim t : In t (find_loop_gen q l off lim) -> In t l.
 Proof.
   revert off lim. induction l as [|x l IH]; cbn; intros off lim H; [tauto|].
-  destruct (q_match q x).
+  destruct (q x).
   - destruct (negb (off =? 0)); [eauto|]. destruct (lim =? 0); [cbn in H; tauto|].
     cbn in H. destruct H; eauto.
   - eauto.
